@@ -21,11 +21,12 @@ Extraction "model.ml"
   Frame.fc_adr Frame.fc_adr_ack_req Frame.fc_ack Frame.fc_f_pending Frame.fc_f_opts_len
   Frame.ja_join_nonce Frame.ja_net_id Frame.ja_dev_addr Frame.ja_dl_settings Frame.ja_rx_delay Frame.ja_c_f_list
   Bytes.le_value Bytes.le_bytes
+  MacCmd.fixed_new MacCmd.mcstatus_new MacCmd.mcstatus_mask MacCmd.mcstatus_total MacCmd.mcstatus_items
   MacCmd.parse_all CmdTables.dl_mac_table CmdTables.ul_mac_table CmdTables.dl_dut_table CmdTables.ul_dut_table
   CmdTables.dl_mc_table CmdTables.ul_mc_table
   MacFields.cr_new MacFields.mc_set MacFields.mc_build MacFields.mc_get MacFields.to_hex_msb MacFields.from_hex_msb
   Exec.x_join_otaa Exec.x_send Exec.x_mac_handle_rx Exec.x_mac_rx2_complete Exec.x_rxc_config Exec.x_next_fcnt_down
-  Mac.mac_new Mac.session_new Mac.set_adr Mac.set_datarate Mac.get_rx_delay Mac.with_state Mac.with_region Region.jc_default Region.region_new
+  Mac.dl_queue_push Mac.mac_new Mac.session_new Mac.set_adr Mac.set_datarate Mac.get_rx_delay Mac.with_state Mac.with_region Region.jc_default Region.region_new
   Persist.ser_session Persist.de_session Persist.restore
   PhyCore.run PhyCore.set_nthN PhyTables.sx1261_pa_table PhyTables.sx1262_pa_table PhyTables.stm32wl_hp_pa_table
   Sx126x.init_lora_126 Sx126x.sync_word_write Sx126x.set_standby_126 Sx126x.set_sleep_126 Sx126x.ensure_ready_126 Sx126x.set_buffer_base
